@@ -479,6 +479,7 @@ macro_rules! swap_script_body {
 
         let live0 = WIDE_LIVE.load(Ordering::SeqCst);
         let mut violated = false;
+        let mut st_balanced = true;
         'case: {
             let rt = wide_runtime();
             let mut pkg = match FileTree::test_file("share.roto", &src, 0).compile(&rt) {
@@ -514,6 +515,15 @@ macro_rules! swap_script_body {
                 && st_size == len as u64
                 && st_cat.len() == len + 2
                 && <$E as Elem>::defect(&st_cat[..len], &sorted).is_none();
+            // host values handed to the single-threaded calls must be gone again; if they are
+            // not, that is the accounting of single-threaded code (another property's domain)
+            let st_live = (<$E as Elem>::NAME == "Wide").then(|| (WIDE_LIVE.load(Ordering::SeqCst) - live0, (len + 2 + st.len() + st_cat.len()) as i64));
+            if let Some((got, want)) = st_live {
+                if got != want {
+                    st_balanced = false;
+                    rep.notes.push(format!("share swap-script: element imbalance single-threaded ({got} live, {want} expected; C03's domain): balance check skipped for that case"));
+                }
+            }
             if !st_ok {
                 rep.violation(
                     "single-threaded: a script shuffling a list with swap does not preserve its elements",
@@ -607,7 +617,7 @@ macro_rules! swap_script_body {
             rep.sample(json!({"case": case, "class": "swap-script", "params": params, "observations_checked": n}));
         }
         let live1 = WIDE_LIVE.load(Ordering::SeqCst);
-        if live1 != live0 && !violated {
+        if live1 != live0 && !violated && st_balanced {
             rep.violation(
                 "drop-tracked list elements do not balance after the shared list, all clones, the package and the runtime were dropped",
                 "share-list-element-imbalance:swap-script",
@@ -1307,7 +1317,12 @@ pub fn run_case(c: &Case, rep: &mut Report, keep_sample: bool) -> usize {
         let params: Option<Value> = out.lines().rev().find_map(|l| l.strip_prefix("PARAMS ")).and_then(|j| serde_json::from_str(j).ok());
         rep.hist("share-class", c.class.as_str());
         rep.violation(
-            "a process in which threads share a list / a registered closure or constant / an into_func closure through the safe API died or hung",
+            match c.class.as_str() {
+                "swap-rust" => "a process in which threads swap, read and push elements of Lists shared through the safe Rust API died or hung",
+                "swap-script" => "a process in which threads call one compiled function through a shared handle on clones of one List died or hung",
+                "refcount-storm" => "a process in which threads clone and drop a registered item, the runtime and a function handle while others compile against the shared runtime and call died or hung",
+                _ => "a process calling the closure returned by TypedFunc::into_func while / after another thread dropped the package, the runtime and the other handles died or hung",
+            },
             &format!("share-crash:{}", c.class),
             json!({"case": c.json(), "observed": {"ended": how, "attempt": c.attempt, "last_phase": phase, "params": params}}),
         );
